@@ -262,6 +262,12 @@ func persistMain(args []string) {
 			w := &worker{port: *basePort + i, timeout: 2 * time.Second}
 			for cs := range jobs {
 				r := w.runPersist(cs, *stages)
+				// (an "error" is a hiccup of the infrastructure - a child that did not come up, a port still in use: the
+				// case is run again; if it persists it stays an error and the check is inconclusive)
+				for try := 0; try < 2 && r["status"] == "error"; try++ {
+					time.Sleep(100 * time.Millisecond)
+					r = w.runPersist(cs, *stages)
+				}
 				b, _ := json.Marshal(r)
 				omu.Lock()
 				ow.Write(b)
